@@ -38,6 +38,16 @@ def cases(tier, variants):
     for jac in JACS[1:]:
         yield from F.convex_cases(2, variants, (3,), fams=fd_f, hesses=fd_h,
                                   extra=dict(part="e1", jac=jac))
+    # letter: the start is given in single precision (interior starts only: a float32
+    # start on a float64 bound is not feasible)
+    for jac in ("callable", "2-point"):
+        # (all numeric variants: whether a bound rounds inwards or outwards in single
+        # precision depends on its value)
+        for c in F.convex_cases(2, list(range(core.NVAR)), (3,), fams=("qp",),
+                                hesses=("rot2",), extra=dict(part="e1", jac=jac,
+                                                             x0dtype="f4")):
+            if all(s_ == "in" for s_ in c["start"]):
+                yield c
     for z in ("lo", "up", "deg"):
         for jac in ("callable", "2-point"):
             yield from F.convex_cases(2, variants, (3,), fams=("qp",), hesses=("rot2",),
@@ -141,8 +151,9 @@ def run(case):
     exc = None
     kw = dict(maxcor=case.get("maxcor", 3), maxls=case.get("maxls", 20),
               maxfun=case.get("maxfun", 3000), maxiter=60, ftol=1e-14, gtol=1e-9)
+    x0_ = p.x0.astype(np.float32) if case.get("x0dtype") == "f4" else p.x0.copy()
     try:
-        res = minimize_lbfgsb(x0=p.x0.copy(), fun=obs.fun,
+        res = minimize_lbfgsb(x0=x0_, fun=obs.fun,
                               jac=obs.jac if jac == "callable" else jac, bounds=p.bounds,
                               callback=lambda x, st: its.append((x.copy(), np.copy(st.x))) and False,
                               **kw)
